@@ -21,9 +21,9 @@ type ixWorld struct {
 	ids     map[*ixStore]int
 	handles []*ixStore
 	// oracle: index -> handle, handle -> contents
-	at       map[uint32]int
-	contents map[int]map[int]int
-	evictions int
+	at             map[uint32]int
+	contents       map[int]map[int]int
+	evictions      int
 	detachedWrites int
 }
 
